@@ -73,12 +73,19 @@ CLAIMED = {
          "repaired defect). Constants (queue size, mark, bit) regenerated from the source each run and their side conditions re-proved. "
          "Tie: the real urcu-defer-impl.h driven with adversarial streams (odd/mark arguments, odd-address and faulting function words, "
          "counters near 2^63/2^64, entries across the ring wrap); every stored word, counter and invocation replayed on the model; "
-         "independent C oracle. Partial: owner/reclaimer interleaving at single-access granularity under TSO and the defer thread's futex "
-         "handshake (C13_full) are not covered yet.",
+         "independent C oracle. Concurrent part (Defer/Conc*.lean, Props/C13Conc.lean): x86-TSO ring / store-buffer / runner model and "
+         "TSO futex-handshake model, any number of owners and readers, all interleavings and buffer delays: tso_publication (a runner "
+         "never reads a slot whose store has not reached memory), no_overwrite_unread, conc_exactly_once_in_order, conc_runs_after_gp, "
+         "reclaimer_no_lost_wakeup, waker_not_stuck / waker_measure (<= 14 own steps); necessity witnesses Neg/C13 (no mb before "
+         "wake_up_defer, scan before dec, tail published early). Tie of the concurrent part: the real urcu.c + urcu-defer-impl.h (mb, "
+         "memb) under the cooperative runtime incl. the real defer thread, ring wrap, the SIZE-2 flush, futex fault plans, "
+         "one-preemption sweeps of the dec->scan->wait and head-store->mb->futex-load windows. Partial: liveness under fairness "
+         "(C13_conc_live) is stated, not proved; the two L2 models are composed through their shared steps, not by a mechanised "
+         "refinement.",
     note="Trusted: Lean kernel; GpSpec as the meaning of synchronize_rcu; each API step atomic under rcu_defer_mutex (enqueue interleaves "
          "between snapshot/gp/run); harness shims (TLS array, mutex/thread/malloc hooks, SIGSEGV-simulated calls for non-callable "
          "function words); malloc succeeds; 64-bit long.",
-    technique="Lean 4 proofs (codec round-trip by induction, ring/registration invariants) + differential replay of the real source on adversarial streams",
+    technique="Lean 4 proofs (codec round-trip by induction, ring/registration invariants; TSO ring and futex-handshake invariants) + differential replay on adversarial streams and event-level trace refinement of the real source under the cooperative runtime",
     design_ref="§4 C13, §5", engine="defer"),
  "C02": dict(
     text="Lean 4 theorems on two x86-TSO handshake models, any number of readers, all interleavings and all placements of spurious/EINTR/EAGAIN "
